@@ -101,6 +101,42 @@ pub fn handle(op: &str, a: &[&str]) -> Option<Resp> {
                     fail = Some("reading the same text again after an earlier result was edited does not reproduce the text".to_string());
                 }
             }
+            // from_file / from_file_relaxed on a path that is not a regular file: the text delivered
+            // through a pipe opened by path (stat() reports size 0 there) — after seeded change
+            // C01-r7m1 (a read capped by the metadata length)
+            if fail.is_none() && s.len() <= 60_000 {
+                use std::io::Write;
+                use std::os::fd::AsRawFd;
+                let through_pipe = |strict: bool| -> Option<(String, bool)> {
+                    let (rd, mut wr) = std::io::pipe().ok()?;
+                    wr.write_all(s.as_bytes()).ok()?;
+                    drop(wr);
+                    let path = format!("/proc/self/fd/{}", rd.as_raw_fd());
+                    if strict {
+                        Some(match Deb822::from_file(&path) {
+                            Ok(d) => (d.to_string(), true),
+                            Err(_) => (String::new(), false),
+                        })
+                    } else {
+                        Deb822::from_file_relaxed(&path).ok().map(|(d, e)| (d.to_string(), e.is_empty()))
+                    }
+                };
+                match through_pipe(false) {
+                    Some((t, noerr)) => {
+                        if t != s || noerr != errs.is_empty() {
+                            fail = Some("from_file_relaxed on a pipe path differs from from_str_relaxed".to_string());
+                        }
+                    }
+                    None => fail = Some("from_file_relaxed on a pipe path: io error".to_string()),
+                }
+                if fail.is_none() {
+                    if let Some((t, ok)) = through_pipe(true) {
+                        if ok != errs.is_empty() || (ok && t != s) {
+                            fail = Some("from_file on a pipe path differs from from_str".to_string());
+                        }
+                    }
+                }
+            }
             if fail.is_none() {
                 // read / read_relaxed over the same bytes
                 match Deb822::read_relaxed(s.as_bytes()) {
